@@ -169,6 +169,37 @@ theorem gcrm_rejection_witness (lim : Nat) (s : Store) (stop : Bool) (fuel root 
   let h := gcrm_depth s stop root lim fuel root {} (GD.init s root lim) rfl
   ⟨h.deep, h.cyc⟩
 
+/-- **ok ⇒ every reference was followed below the limit** — if the walk returns `Ok`, every
+reachable claim `u` lies on a path of `k` edges from the root such that `k + 1 < lim`, as soon as
+it references an existing claim at all. The depth test precedes the memo test, so this also
+holds when the referenced claim has a short path of its own and was walked before
+(`gcrm_arrival_too_deep`). -/
+theorem gcrm_ok_references_below_limit (lim : Nat) (s : Store) (stop : Bool) (fuel root : Nat)
+    (hok : (gcrm lim s stop fuel root {}).1 = .ok) :
+    ∀ u v, Reach s root u → Edge s u v → ∃ k, k + 1 < lim ∧ ReachIn s root k u := by
+  intro u v hu he
+  obtain ⟨_, _, hfin⟩ := gcrm_ok_finish_topological lim s stop fuel root hok
+  have hd := (gcrm_depth s stop root lim fuel root {} (GD.init s root lim) rfl).ok hok
+  obtain ⟨k, hk, hall⟩ := hd.1.einv u (hfin u hu)
+  exact ⟨k, hall v he, hk⟩
+
+/-- a **reference nested at the limit**: `u → v` where every path from the root to `u` has at
+least `lim - 1` edges, so `v` is nested under at least `lim` claims on each of them — even if `v`
+also has a short path from the root. -/
+def DeepRef (lim : Nat) (s : Store) (root u v : Nat) : Prop :=
+  Reach s root u ∧ Edge s u v ∧ ∀ k, ReachIn s root k u → lim ≤ k + 1
+
+/-- **deep_reference_rejected** — such a store is never walked successfully, whatever the order
+of the ingredient assertions. (In which *other* cases a long path is rejected depends on that
+order: the walk rejects exactly when it arrives somewhere with `lim` claims above; the harness
+oracle `walk-depth-limit-accepted` / `depth-error-without-deep-walk` states that on the code.) -/
+theorem gcrm_deep_reference_rejected (lim : Nat) (s : Store) (stop : Bool) (fuel root u v : Nat)
+    (hd : DeepRef lim s root u v) : (gcrm lim s stop fuel root {}).1 ≠ .ok := by
+  intro hok
+  obtain ⟨k, hk, hin⟩ := gcrm_ok_references_below_limit lim s stop fuel root hok u v hd.1 hd.2.1
+  have := hd.2.2 k hin
+  omega
+
 /-! ### chains -/
 
 /-- The first ingredient of every claim `k < lim` names claim `k + 1`, and claims `0 … lim`
@@ -486,6 +517,23 @@ theorem validate_over_deep_rejected (lim : Nat) (s : Store) (root v : Nat) (hr :
   · simp [h]
   · cases h
 
+/-- **deep_reference_rejected (composed)** — never a report, hence never Valid. -/
+theorem validate_deep_reference_rejected (lim : Nat) (s : Store) (root u v : Nat)
+    (hr : root < s.length) (hd : DeepRef lim s root u v) :
+    (validate lim s root).out = .tooDeep ∨ (validate lim s root).out = .cyclic := by
+  have hne := gcrm_deep_reference_rejected lim s false (s.length + 1 + 0) root u v hd
+  have hout := gcrm_outcomes lim s false root 0 hr
+  unfold validate
+  have hs : s[root]? = some s[root] := List.getElem?_eq_getElem hr
+  rw [hs]
+  simp only
+  rw [fuelFor_eq]
+  rcases hout with h | ⟨h, _⟩ | h | ⟨_, h⟩
+  · exact absurd h hne
+  · simp [h]
+  · simp [h]
+  · cases h
+
 /-- … and on an acyclic reachable graph the error is exactly the depth error. -/
 theorem validate_over_deep_acyclic_rejected (lim : Nat) (s : Store) (root v : Nat)
     (hr : root < s.length) (hod : OverDeep lim s root v)
@@ -785,6 +833,19 @@ example : (validate 3 exSecondDeep 0).out ≠ .ok ∧ ¬ ChainPrefix 3 exSecondD
   simp [clh] at hi
   obtain ⟨rfl, _⟩ := hi
   simp at ht
+
+/-- a chain 0 → 1 → 2 → 3 whose tail the root also lists directly, before or after the chain:
+claim 3 has a path of one edge (it is not `OverDeep`), yet with limit 3 the chain nests it under
+three claims and the store is rejected in both orders; the reference 2 → 3 is a `DeepRef` -/
+def exShortcutFirst : Store := [clh [3, 1], clh [2], clh [3], clh []]
+def exShortcutLast : Store := [clh [1, 3], clh [2], clh [3], clh []]
+example : (validate 3 exShortcutFirst 0).out = .tooDeep ∧ (validate 3 exShortcutLast 0).out = .tooDeep ∧
+    (validate 4 exShortcutFirst 0).isClean = true := by decide
+/-- where the order matters: 0 → 3 → 4 and 0 → 1 → 2 → 3, limit 4 — the short side first is
+accepted, the long side first is rejected (then 3 is entered with three claims above it and its
+reference to 4 arrives at the limit) -/
+example : (validate 4 [clh [3, 1], clh [2], clh [3], clh [4], clh []] 0).isClean = true ∧
+    (validate 4 [clh [1, 3], clh [2], clh [3], clh [4], clh []] 0).out = .tooDeep := by decide
 
 /-- scopes: the walker's missing event is active-scope, `ingredient_checks`' one is not -/
 example : scopeLog 200 exDangling 0 =
